@@ -293,7 +293,7 @@ def run(ctx: Ctx) -> None:
     for fam in ("mem", "sql"):
         for scn in race_scenarios(fam):
             jobs.append({"scn": cc.scn_dict(scn), "mode": "dfs", "preemptions": 2 if ctx.quick else 3,
-                         "max_exec": (300 if fam == "mem" else 60) if ctx.quick else 6000})
+                         "max_exec": (300 if fam == "mem" else 60) if ctx.quick else 1500})
             jobs.append({"scn": cc.scn_dict(scn), "mode": "seeds", "seeds": [ctx.seed + k for k in range(5 if ctx.quick else 80)]})
     results = cc.run_jobs(jobs)
     bad = [r for r in results if r["outcome"] != "done"]
